@@ -9,8 +9,8 @@ ALT = {
                       '"é"', '"`"', '"a\nb"', '"select"', '"1"'],
     'INTEGER': ['0', '007', '12345678901234567890123456789'],
     'FLOAT': ['1.0', '1.50', '0.5', '00.5', '123456789.123456789'],
-    'VARIABLE': ['@v.w', "@'a b'", '@`a b`', '@"a b"', '@$x', "@'a'", '@_'],
-    'SYSTEM_VARIABLE': ['@@v.w', "@@'a b'", '@@`a b`', '@@"a b"'],
+    'VARIABLE': ['@v.w', "@'a b'", '@`a b`', '@"a b"', '@$x', "@'a'", '@_', '@`abc\n`', "@'a\nb'", '@`\nabc`', '@`a `', '@` a`', '@`a\tb`', '@"abc\n"', '@`a1`', '@`1`'],
+    'SYSTEM_VARIABLE': ['@@v.w', "@@'a b'", '@@`a b`', '@@"a b"', '@@`abc\n`', "@@'a.b\n'", '@@`a `'],
     'PARAMETER': ['?'],
 }
 
